@@ -419,6 +419,29 @@ def run(ctx):  # noqa: C901, PLR0912, PLR0915
     worker_loops_contained(ctx, 'C13.R5', WORKERS)
     from .c09 import enqueue_is_bounded
     enqueue_is_bounded(ctx, 'C13.R4')   # a request never waits for ever for a slot of the operations queue
+    # the fault the catch-all builds is schema-valid whatever the exception says: add_reason_text adds a Text for every call (an
+    # exception without a message gives an empty Text, which is valid; no Text at all is not, and the fault could not be serialised)
+    art = repo.func('sdc11073.pysoap.soapenvelope.Fault.add_reason_text')
+    gar = cfg_of(art)
+    apps_ = [n_ for n_, c_ in gar.nodes_calling('append')]
+    uncond = bool(apps_) and all(not list(gar.facts_at(n_).both()) for n_ in apps_)
+    ctx.ob('C13.R3', 'a fault always has a reason text', uncond,
+           'Fault.add_reason_text appends the text unconditionally' if uncond else
+           f'Fault.add_reason_text adds the text only under {[list(gar.facts_at(n_).both()) for n_ in apps_][:1]}: the fault built for '
+           f'an exception with an empty message has no Reason/Text, fails its own validation inside the catch-all and the '
+           f'exception escapes do_post', fi=art)
+    # a request the handler refuses (or that raises) changes nothing: the time stamp that arms the invocation timeout is taken
+    # after the handler returned
+    exo = repo.func('sdc11073.provider.operations.OperationDefinitionBase.execute_operation')
+    gex = cfg_of(exo)
+    hcall = [n_ for n_, c_ in gex.nodes_calling('_operation_handler')]
+    stamps = [n_ for n_ in gex.real_nodes() if n_.kind == 'stmt' and isinstance(n_.stmt, ast.Assign) and
+              any(unparse(t) == 'self.last_called_time' for t in n_.stmt.targets)]
+    ok_ex = bool(hcall) and bool(stamps) and all(any(gex.dominates(h, s_) for h in hcall) for s_ in stamps)
+    ctx.ob('C13.R3', 'the timeout supervision is armed after the handler ran', ok_ex,
+           'execute_operation sets last_called_time after the operation handler returned' if ok_ex else
+           'execute_operation sets last_called_time before the handler runs: a request the handler rejects arms the invocation '
+           'timeout, whose handler changes the MDIB later - the rejected request had an effect', fi=exo)
     from . import common
     common.codec_keeps_no_state(ctx, 'C13.R2', 'sdc11073.pysoap.msgreader.MessageReader', 'message reader')
     common.log_templates_are_constant(ctx, 'C13.R3', ['sdc11073.dispatch', 'sdc11073.httpserver', 'sdc11073.pysoap.msgreader',
